@@ -59,6 +59,9 @@ type Run struct {
 	Seed   int
 	Replay string // path of a replay file, "" when exploring
 	Rule   string
+	// WorkerProcs, when > 0, is the GOMAXPROCS of Parallel worker processes
+	// (cooperative-scheduler checks run fastest with 1).
+	WorkerProcs int
 
 	mu          sync.Mutex
 	start       time.Time
@@ -488,6 +491,9 @@ func (r *Run) runWorker(exe, tmp, phase string, s int, classify CrashClassifier)
 			"VERIF_CHILD_SKIP="+strconv.FormatInt(skip, 10),
 			"VERIF_CHILD_DEADLINE="+strconv.FormatInt(r.deadline.Unix(), 10),
 		)
+		if r.WorkerProcs > 0 {
+			cmd.Env = append(cmd.Env, "GOMAXPROCS="+strconv.Itoa(r.WorkerProcs))
+		}
 		errf, _ := os.Create(out + ".stderr")
 		cmd.Stderr = errf
 		cmd.Stdout = errf
